@@ -813,8 +813,20 @@ impl World {
                                 }
                             }
                             let f = fresh_obs(&it);
-                            if strip_blocked(&f) != strip_blocked(&f_before) {
-                                fails.push(("C09", format!("a crash after a subset {:b} of the commit's writes does not reopen to the previous state: {}", mask, first_diff(&f_before, &f))));
+                            let new_id = ids.first().cloned().unwrap_or_default();
+                            let applied = |v: &Value| -> BTreeSet<String> {
+                                v.get("deltas").and_then(|d| d.as_object()).map(|d| d.iter().filter(|(_, x)| x["s"] == "applied").map(|(k, _)| k.clone()).collect()).unwrap_or_default()
+                            };
+                            if applied(&f).contains(&new_id) {
+                                fails.push(("C09", format!("after a crash that left only a subset {:b} of the commit's writes the new block is applied", mask)));
+                            } else if applied(&f) == applied(&f_before) {
+                                // (the pack alone can complete a block received earlier from a replica that made
+                                // the same edit: then more is applied than before, legitimately)
+                                if strip_blocked(&f) != strip_blocked(&f_before) {
+                                    fails.push(("C09", format!("a crash after a subset {:b} of the commit's writes does not reopen to the previous state: {}", mask, first_diff(&f_before, &f))));
+                                }
+                            } else if let Some(w) = check_no_mixture(&it) {
+                                fails.push(("C09", format!("a crash after a subset {:b} of the commit's writes reopens to a mixed state: {}", mask, w)));
                             }
                         }
                     }
@@ -1353,9 +1365,18 @@ impl World {
                     if read_res(m) != read_before {
                         fails.push(("C09", "a failed commit changed the visible document".into()));
                     }
-                    let f = fresh_obs(&store.snapshot());
-                    if strip_blocked(&f) != strip_blocked(&f_before) {
-                        fails.push(("C09", format!("after a failed commit a reopened replica does not see the previous state: {}", first_diff(&f_before, &f))));
+                    let snap = store.snapshot();
+                    let f = fresh_obs(&snap);
+                    let applied = |v: &Value| -> BTreeSet<String> {
+                        v.get("deltas").and_then(|d| d.as_object()).map(|d| d.iter().filter(|(_, x)| x["s"] == "applied").map(|(k, _)| k.clone()).collect()).unwrap_or_default()
+                    };
+                    if applied(&f) == applied(&f_before) {
+                        if strip_blocked(&f) != strip_blocked(&f_before) {
+                            fails.push(("C09", format!("after a failed commit a reopened replica does not see the previous state: {}", first_diff(&f_before, &f))));
+                        }
+                    } else if let Some(w) = check_no_mixture(&snap) {
+                        // the orphan pack may complete a block received earlier; never a mixture
+                        fails.push(("C09", format!("after a failed commit a reopened replica sees a mixed state: {}", w)));
                     }
                 }
             }
